@@ -3,7 +3,13 @@
 import json, sys
 name, summary, needs = sys.argv[1:4]
 p = f'/verif/seeded/{name}/meta.json'
-m = json.load(open(p))
+import os, re
+if os.path.exists(p):
+    m = json.load(open(p))
+else:
+    os.makedirs(os.path.dirname(p), exist_ok=True)
+    mm = re.match(r'c(\d+)-agent(\d+)', name)
+    m = {'property': 'C' + mm.group(1), 'source': 'independent sub-agent, round ' + mm.group(2)}
 m.update(summary=summary, needs=needs, verified='demo passes without / fails with the change; the listed existing tests pass with the change')
 if len(sys.argv) > 4: m['also_checked_by'] = sys.argv[4].split(',')
 json.dump(m, open(p, 'w'), indent=1)
